@@ -51,13 +51,17 @@ Logged ==
   \/ Is("exit_lock") /\ ExitLock(Th)
   \/ Is("reset") /\ l > 1 /\ AllDone /\ ResetAll
 
-(* unlogged steps of the thread whose record comes next *)
-Silent(t) == \/ Poll(t) \/ Native(t) \/ NativeBody(t) \/ Stw(t) \/ Spawn(t) \/ Exit(t)
-             \/ (SpWake(t) /\ armed) \/ UnparkWake(t) \/ (StwWake(t) /\ stopped < running[t])
+(* unlogged steps. The choice of the next runtime operation (and the compiled poll that saw the request) is inferred for
+   the thread whose record comes next: these steps are enabled by the thread's own state only. A condvar waiter that has
+   been notified re-acquires the barrier lock at a time of its own: what it then sees (armed or not, stopped < running)
+   is shared state, so these wake-ups may be taken by ANY thread at ANY point of the trace.                          *)
+SilentChoice(t) == Poll(t) \/ Native(t) \/ NativeBody(t) \/ Stw(t) \/ Spawn(t) \/ Exit(t)
+SilentWake(t) == (SpWake(t) /\ armed) \/ UnparkWake(t) \/ (StwWake(t) /\ stopped < running[t])
 
 TraceInit == Init /\ l = 1
 TraceNext == \/ Logged /\ l' = l + 1
-             \/ l <= Len(Rec) /\ Ev.ev # "reset" /\ Silent(Th) /\ UNCHANGED l
+             \/ l <= Len(Rec) /\ Ev.ev # "reset" /\ SilentChoice(Th) /\ UNCHANGED l
+             \/ (\E t \in T : SilentWake(t)) /\ UNCHANGED l
 TraceSpec == TraceInit /\ [][TraceNext]_tvars
 
 TView == <<core, l>>
